@@ -183,3 +183,89 @@ def assumptions(domains):
     for d in domains:
         out += ASSUMPTIONS.get(d, [])
     return out
+
+
+# ---------------------------------------------------------------------------------------- per-path reset of shared mutable state
+def snapshot_shared_state():
+    """Mutable objects that live longer than one call in the code under test - class attributes, module globals and default
+    arguments of han.* that are dict/list/set/bytearray or instances of han classes - are snapshotted once and restored IN PLACE at
+    the start of every path, so that every path starts from the import-time state (a change that makes objects share such state
+    is then judged by what it does within one path - e.g. the twin / history scenarios - not by leftovers of earlier paths)."""
+    import copy, types
+    mods = [m for n, m in list(sys.modules.items()) if (n == "han" or n.startswith("han.")) and m is not None]
+    seen, items = set(), []
+
+    from .seq import SSeq, SByteArray
+
+    def lift(owner, name, obj):
+        """a long-lived real bytearray (class attribute / module global) would force every symbolic octet appended to it to a
+        concrete value; it becomes the symbolic byte array the rebound ``bytearray`` name would have produced."""
+        if type(obj) is bytearray and owner is not None:
+            try:
+                new = SByteArray(list(obj))
+                setattr(owner, name, new)
+                return new
+            except Exception:
+                return obj
+        return obj
+
+    def consider(obj):
+        if id(obj) in seen:
+            return
+        if isinstance(obj, SSeq):
+            seen.add(id(obj))
+            items.append((obj, list(obj._d)))
+        elif isinstance(obj, (dict, list, set, bytearray)):
+            seen.add(id(obj))
+            try:
+                items.append((obj, copy.copy(obj)))
+            except Exception:
+                pass
+        elif hasattr(obj, "__dict__") and not isinstance(obj, (type, types.ModuleType, types.FunctionType)) and type(obj).__module__.startswith("han."):
+            seen.add(id(obj))
+            items.append((obj, dict(vars(obj))))
+
+    for m in mods:
+        for name, v in list(vars(m).items()):
+            if name.startswith("__"):
+                continue
+            if isinstance(v, type) and v.__module__ == m.__name__:
+                for an, av in list(vars(v).items()):
+                    if not an.startswith("__"):
+                        av = lift(v, an, av)
+                        consider(av)
+                    raw = av.__func__ if isinstance(av, (staticmethod, classmethod)) else (av.fget if isinstance(av, property) else av)
+                    if isinstance(raw, types.FunctionType):
+                        for d in (raw.__defaults__ or ()):
+                            consider(d)
+                        for d in (raw.__kwdefaults__ or {}).values():
+                            consider(d)
+            elif isinstance(v, types.FunctionType) and v.__module__ == m.__name__:
+                for d in (v.__defaults__ or ()):
+                    consider(d)
+                for d in (v.__kwdefaults__ or {}).values():
+                    consider(d)
+            elif not isinstance(v, (types.ModuleType, type)):
+                if getattr(type(v), "__module__", "").startswith("han.") or isinstance(v, (dict, list, set, bytearray)):
+                    if not (isinstance(v, dict) and name in ("__builtins__",)):
+                        v = lift(m, name, v)
+                        consider(v)
+
+    def restore():
+        for obj, snap in items:
+            try:
+                if isinstance(obj, SSeq):
+                    obj._d[:] = snap
+                elif isinstance(obj, dict):
+                    if obj != snap or len(obj) != len(snap):
+                        obj.clear(); obj.update(snap)
+                elif isinstance(obj, (list, bytearray)):
+                    obj[:] = snap
+                elif isinstance(obj, set):
+                    obj.clear(); obj.update(snap)
+                else:
+                    obj.__dict__.clear(); obj.__dict__.update(snap)
+            except Exception:
+                pass
+    restore.count = len(items)
+    return restore
